@@ -86,12 +86,12 @@ CLAIMED = {
     "C17": dict(category="proof",
         text="Lean theorems on a transliteration of simple/ops.go + inode.go: WRITE/READ/SETATTR refine the specification 'a fixed set of files, each a byte string of at most 4096 bytes' "
              "(acceptance conditions exact for all 64-bit offsets and counts, content equations, end-of-file flag, zero fill, no exposure after shrink), invalid inodes refused, "
-             "invariant preserved, per-file objects disjoint; correspondence on all procedures with exact status codes. Crash atomicity and linearizability: pending (journal-level).",
+             "invariant preserved, per-file objects disjoint; correspondence on all procedures with exact status codes; concurrent rounds on one inode must be explained by some order applied by the model; crash images (prefix-state oracle, recovered by simple.Recover) with the C01 WAL theorems (PARTIAL: schedules and crash points sampled).",
         design_ref="DESIGN.md 5/C17", note="trusted: Lean kernel, hand-written transliteration (validated by correspondence), harness",
         technique="Lean 4 refinement proof + correspondence"),
     "C18": dict(category="proof",
         text="Lean theorems on the key/value model: MultiPut is all-or-nothing and one journal transaction, get_latest over arbitrary histories (read your writes), coinciding range guards; "
-             "correspondence on sequences incl. journal-capacity boundaries. Crash durability and concurrent linearizability: pending (journal-level).",
+             "correspondence on sequences incl. journal-capacity boundaries; concurrent rounds of overlapping puts must be explained by some order applied by the model; crash images (all pairs of a put or none, acknowledged puts survive) with the C01 WAL theorems (PARTIAL: schedules and crash points sampled).",
         design_ref="DESIGN.md 5/C18", note="trusted: Lean kernel, hand-written model (validated by correspondence), harness",
         technique="Lean 4 proof (history induction) + correspondence"),
     "C19": dict(category="proof",
